@@ -107,8 +107,28 @@ def inline_helpers(pkg, fn, keep=(), max_rounds=4):
     new._gs_module, new._gs_class = getattr(fn, "_gs_module", None), cls
     inlined = set()
 
+    # local objects of known package classes:  x = ClassName(...)   (e.g. ret = OptimizationResult())
+    local_classes = {}
+    nested_defs = {}
+    for st in ast.walk(fn):
+        if isinstance(st, ast.Assign) and len(st.targets) == 1 and isinstance(st.targets[0], ast.Name) and isinstance(st.value, ast.Call):
+            cn = ast.unparse(st.value.func)
+            if cn in pkg.classes:
+                local_classes.setdefault(st.targets[0].id, set()).add(cn)
+    for st in fn.body:
+        if isinstance(st, ast.FunctionDef):
+            nested_defs[st.name] = st
+
     def callee_of(call):
         f = call.func
+        if isinstance(f, ast.Attribute) and isinstance(f.value, ast.Name) and f.value.id in local_classes and len(local_classes[f.value.id]) == 1:
+            cname = next(iter(local_classes[f.value.id]))
+            k = pkg.lookup(cname, f.attr)
+            if k is not None and k[0] == "method" and not k[1][1] and not k[1][2]:
+                return k[1][0], f.value.id
+            return None, False
+        if isinstance(f, ast.Name) and f.id in nested_defs and f.id not in keep:
+            return nested_defs[f.id], False
         if isinstance(f, ast.Attribute) and isinstance(f.value, ast.Name) and f.value.id == "self" and cls:
             if f.attr in keep:
                 return None, False
@@ -126,9 +146,11 @@ def inline_helpers(pkg, fn, keep=(), max_rounds=4):
     def subst_body(callee, call, is_method):
         _Counter.n += 1
         prefix = "__inl%d_" % _Counter.n
-        pre, mp = _bind(callee, call, is_method, prefix)
+        pre, mp = _bind(callee, call, bool(is_method), prefix)
         if pre is None:
             return None
+        if isinstance(is_method, str) and callee.args.args:
+            mp[callee.args.args[0].arg] = ast.Name(id=is_method, ctx=ast.Load())     # self -> the local object
         params = set(mp)
         locs = _locals(callee, params)
         for p in list(mp):
@@ -188,6 +210,8 @@ def inline_helpers(pkg, fn, keep=(), max_rounds=4):
                 call = st.value
             elif isinstance(st, ast.Assign) and isinstance(st.value, ast.Call):
                 call = st.value
+            elif isinstance(st, ast.Return) and isinstance(st.value, ast.Call):
+                call = st.value
             if call is not None:
                 callee, is_method = callee_of(call)
                 if callee is not None:
@@ -204,7 +228,9 @@ def inline_helpers(pkg, fn, keep=(), max_rounds=4):
                         if r is not None:
                             _, pre, body = r
                             out.extend(pre + body[:-1])
-                            if isinstance(st, ast.Assign):
+                            if isinstance(st, ast.Return):
+                                out.append(ast.copy_location(ast.Return(value=body[-1].value), st))
+                            elif isinstance(st, ast.Assign):
                                 out.append(ast.copy_location(ast.Assign(targets=st.targets, value=body[-1].value, lineno=st.lineno), st))
                             else:
                                 out.append(ast.copy_location(ast.Expr(value=body[-1].value), st))
